@@ -1,6 +1,6 @@
 (* C20  The portable codec round-trips every well-formed model description. *)
 From Coq Require Import String List Bool Ascii.
-From Verif Require Import model.Portable.
+From Verif Require Import gen.PortableGen model.Portable.
 Import ListNotations.
 Open Scope string_scope.
 
@@ -79,6 +79,8 @@ Proof.
   intros [d lin flat det qs es ctx vs] W. unfold wf_mdesc in W. cbn [d_equations] in W.
   unfold decode, encode.
   cbn [d_descr d_linear d_flat d_determ d_quantities d_equations d_context d_variants].
+  unfold gen_key_format, gen_key_source, gen_key_variants, gen_key_description, gen_key_flags, gen_key_quantities,
+    gen_key_equations, gen_key_context, gen_key_linear, gen_key_flat, gen_key_determ, gen_format.
   cbn [field lookup bind String.eqb Ascii.eqb Bool.eqb dec_bool dec_list].
   rewrite (mapM_map (enc_quantity N) (dec_quantity N) qs) by (intros q _; apply quantity_roundtrip).
   cbn [bind].
@@ -89,9 +91,16 @@ Proof.
 Qed.
 
 (* a wrong format tag is rejected *)
-Lemma decode_rejects_other_format : forall src vars,
-  decode N (JObj [("portable_format", JStr "0.2.0"); ("source", src); ("variants", vars)]) = None.
-Proof. intros. reflexivity. Qed.
+Lemma decode_rejects_other_format : forall f src vars, f <> gen_format ->
+  decode N (JObj [(gen_key_format, JStr f); (gen_key_source, src); (gen_key_variants, vars)]) = None.
+Proof.
+  intros f src vars H. unfold decode. cbn [field lookup]. rewrite String.eqb_refl. cbn [bind].
+  apply String.eqb_neq in H. rewrite H. reflexivity.
+Qed.
+
+(* every kind is listed exactly once, whatever order the source uses *)
+Lemma all_qkinds_complete : forall k, length (filter (qkind_eqb k) all_qkinds) = 1.
+Proof. destruct k; reflexivity. Qed.
 
 (* ------------------------------------------------------------------ order of quantities *)
 
